@@ -12,6 +12,8 @@ CONSTANTS
   IdCases = {"lower", "upper"}
   HonestModes = {TRUE, FALSE}
   AnswerKinds = {"ok", "err", "garbage", "close"}
+  Restores = {11, 22, 33, 21, 12, 32}
+  DecSpawn = {FALSE}
   NormalisedRemove = TRUE
 CONSTRAINT QBound
 CHECK_DEADLOCK FALSE
